@@ -334,6 +334,21 @@ impl SimFs {
         Ok(f.off)
     }
 
+    pub fn set_len(&mut self, fd: u64, len: u64) -> Result<String, i32> {
+        let f = self.fds.get(&fd).ok_or(EBADF)?;
+        if !f.write {
+            return Err(EINVAL);
+        }
+        let key = f.path.clone();
+        match self.nodes.get_mut(&key) {
+            Some(Node::File(b)) => {
+                b.resize(len as usize, 0);
+                Ok(key)
+            }
+            _ => Err(EBADF),
+        }
+    }
+
     pub fn close(&mut self, fd: u64) {
         self.fds.remove(&fd);
     }
